@@ -106,6 +106,17 @@ var pathsA = []string{
 	api + "/.groups/grpL/.users/usrDup/.password", api + "/.groups/grpL/.users/usrMod/.password", api + "/.groups/grpL/.users/usrPre/.password",
 	api + "/.groups/grpL/.wildcard-user", api + "/.groups/grpL/.wildcard-user/.password", api + "/.groups/grpL/.keys",
 	api + "/.groups/grpL/sub", api + "/.groups/grpL/sub/.users/usrOp",
+	// degenerate shapes: a dot-component where a name is expected, empty components, repeated kinds
+	// (not: a dot-name for a token (`.tokens/.x` is a legal token name) or an empty group name (`.groups//` creates the
+	// definition of the group "" inside the groups directory): the oracle's reading of what such a path addresses would
+	// have to copy the code's)
+	api + "/.groups/grpA/.users/.password", api + "/.groups/grpA/.users/.password/", api + "/.groups/grpA/.users/.bogus",
+	api + "/.groups/grpA/.users/.users/usrAlice", api + "/.groups/grpA/.users//usrAlice", api + "/.groups/grpA/.users/./usrAlice",
+	api + "/.groups/grpA/.users/..", api + "/.groups/grpA/.users/.password/x",
+	api + "/.groups/grpA/.keys/.x", api + "/.groups/grpA/.keys/",
+	api + "/.groups/grpA/.empty-user/.bogus", api + "/.groups/grpA/.wildcard-user/.password/x", api + "/.groups/grpA/.wildcard-user/",
+	api + "/.groups/grpA//", api + "/.groups/.", api + "/.groups/..",
+	api + "/.groups/grpA/.", api + "/.stats/", api + "/.stats/.x", api + "/./.groups/", api + "/.groups/.groups/grpA",
 }
 
 var methods = []string{"GET", "HEAD", "PUT", "POST", "DELETE", "OPTIONS", "PATCH"}
